@@ -131,3 +131,40 @@ MUTANTS.update({
     ('update-bucket-nonblocking-ignored', [(W, "      UPDATE_BUCKET.drain(1, blocking=True)", "      UPDATE_BUCKET.drain(1)")]),
   ],
 })
+
+C = 'lib/carbon/cache.py'
+MUTANTS.update({
+  'C02': [
+    ('pop-no-lock', [(C, "      with self.lock:\n        metric = self.strategy.choose_item()\n        if metric is None:", "      if True:\n        metric = self.strategy.choose_item()\n        if metric is None:")]),
+    ('store-no-lock', [(C, "    timestamp, value = datapoint\n    with self.lock:\n", "    timestamp, value = datapoint\n    if True:\n")]),
+    ('size-after-lock', [(C, "        datapoint_index = self._pop(metric)\n      self._check_available_space()\n      return (metric, sorted(datapoint_index.items(), key=by_timestamp))",
+                          "        datapoint_index = defaultdict.pop(self, metric)\n      self.size -= len(datapoint_index)\n      self._check_available_space()\n      return (metric, sorted(datapoint_index.items(), key=by_timestamp))")]),
+    ('dup-increments-size', [(C, "        # Updating a duplicate does not increase the cache size\n        self[metric][timestamp] = value", "        # Updating a duplicate does not increase the cache size\n        self[metric][timestamp] = value\n        self.size += 1")]),
+    ('drop-sorted', [(C, "      return (metric, sorted(datapoint_index.items(), key=by_timestamp))\n    # Avoid", "      return (metric, list(datapoint_index.items()))\n    # Avoid")]),
+    ('first-write-wins', [(C, "        # Updating a duplicate does not increase the cache size\n        self[metric][timestamp] = value", "        # Updating a duplicate does not increase the cache size\n        pass")]),
+    ('pop-two-steps', [(C, "        datapoint_index = self._pop(metric)\n      self._check_available_space()\n      return (metric, sorted(datapoint_index.items(), key=by_timestamp))",
+                        "        datapoint_index = dict(self[metric])\n      with self.lock:\n        self.size -= len(self[metric])\n        del self[metric]\n      self._check_available_space()\n      return (metric, sorted(datapoint_index.items(), key=by_timestamp))")]),
+    ('query-pops', [('lib/carbon/protocols.py', "      datapoints = list(cache.get(metric, {}).items())\n      result = dict(datapoints=datapoints)", "      datapoints = list(cache.get(metric, {}).items())[:2]\n      result = dict(datapoints=datapoints)")]),
+  ],
+  'C10': [
+    ('ge-to-gt', [(C, "      return self.size >= settings.CACHE_SIZE_HARD_MAX", "      return self.size > settings.CACHE_SIZE_HARD_MAX")]),
+    ('overflow-event-removed', [(C, "          events.cacheOverflow()\n", "          pass\n")]),
+    ('existing-metrics-bypass-limit', [(C, "        if self.is_full:\n          log.msg(\"MetricCache is full", "        if self.is_full and metric not in self:\n          log.msg(\"MetricCache is full")]),
+    ('refuse-duplicates-when-full', [(C, "      if timestamp not in self.get(metric, {}):\n", "      if timestamp not in self.get(metric, {}) or self.is_full:\n")]),
+    ('empty-entry-left', [(C, "      if timestamp not in self.get(metric, {}):\n", "      if timestamp not in self[metric]:\n")]),
+    ('hard-max-150pct', [('lib/carbon/conf.py', "settings.CACHE_SIZE_HARD_MAX = settings.MAX_CACHE_SIZE * 1.05", "settings.CACHE_SIZE_HARD_MAX = settings.MAX_CACHE_SIZE * 1.5")]),
+    ('size-not-incremented-for-new-metric', [(C, "          if not self[metric]:\n            self.new_metrics.append(metric)\n          self.size += 1", "          if not self[metric]:\n            self.new_metrics.append(metric)\n          else:\n            self.size += 1")]),
+  ],
+  'C17': [
+    ('choose-pop-window', [(C, "        datapoint_index = self._pop(metric)\n      self._check_available_space()\n      return (metric, sorted(datapoint_index.items(), key=by_timestamp))",
+                            "        pass\n      return (metric, self.pop(metric))")]),
+    ('sorted-resorts-every-call', [(C, "class SortedStrategy(DrainStrategy):", "class SortedStrategy(DrainStrategy):\n  def choose_item(self):\n    self.__init__(self.cache)\n    return next(self.queue)\n  choose_item2 = choose_item\n"),
+                                   (C, "    self.queue = _generate_queue()\n\n  def choose_item(self):\n    return next(self.queue)\n\n\nclass TimeSortedStrategy", "    self.queue = _generate_queue()\n\n  def choose_item_unused(self):\n    return next(self.queue)\n\n\nclass TimeSortedStrategy")]),
+    ('bucketmax-no-rebucket', [(C, "        if nr_points > 1:\n            self.buckets[nr_points - 2].remove(metric)\n\n        self.buckets[nr_points - 1].append(metric)", "        if nr_points > 1:\n            return\n\n        self.buckets[nr_points - 1].append(metric)")]),
+    ('naive-snapshot-once', [(C, "      while True:\n        metric_names = list(self.cache.keys())\n        while metric_names:\n          yield metric_names.pop()", "      metric_names = list(self.cache.keys())\n      while True:\n        while metric_names:\n          yield metric_names.pop()\n        yield None")]),
+    ('max-picks-min', [(C, "metric_name, _ = max(self.cache.items(), key=lambda x: len(itemgetter(1)(x)))", "metric_name, _ = min(self.cache.items(), key=lambda x: len(itemgetter(1)(x)))")]),
+    ('timesorted-ignores-lag', [(C, "        if settings.MIN_TIMESTAMP_LAG:\n          metric_lw = [", "        if False:\n          metric_lw = [")]),
+    ('empty-entry-left', [(C, "      if timestamp not in self.get(metric, {}):\n", "      if timestamp not in self[metric]:\n")]),
+    ('timesorted-lag-uses-newest', [(C, "metric_lw = [x for x in metric_lw if t - x[1] > settings.MIN_TIMESTAMP_LAG]", "metric_lw = [x for x in metric_lw if t - x[2] > settings.MIN_TIMESTAMP_LAG]")]),
+  ],
+})
